@@ -27,7 +27,7 @@ TIERS = {
     # generator config; width of all template cases; extra width for the single-slot template cases;
     # files: list of (k, kinds, width) - one comment at every k-th token boundary
     "quick":    ("CommentsGenQuick.cfg",    "100", None, [(61, "rotate", "100")]),
-    "thorough": ("CommentsGenThorough.cfg", "100", "40", [(7, "line,block,doc", "100"), (7, "rotate", "40")]),
+    "thorough": ("CommentsGenThorough.cfg", "100", "40", [(7, "line,block,doc", "100"), (11, "rotate", "40")]),
 }
 OVERFLOW = "prettier.line-comment|overflow|line"     # Comments.tla, OverflowClass
 OVERFLOW_WITNESS = "findings/C09-non-idempotent-line-comment-overflow.sam"
@@ -179,12 +179,15 @@ def run(tier):
     stats = {"judged": 0, "tlc_states": 0, "drift": 0}
     # 1. enumeration from the specification
     gen, cases, templates = generate(cfg, d)
+    log(f"[C09] {len(cases)} cases enumerated by TLC ({time.time() - t0:.0f}s)")
     # 2. the real formatter on the enumerated cases and on the repository's files
     tt, ti = run_templates(d, cases, width, width1)
+    log(f"[C09] template cases run: {ti['records']} records ({time.time() - t0:.0f}s)")
     for dr in ti["label_drift"][:3]:
         log(f"MODEL-DRIFT: production of token {dr['token']} ({dr['text']}) of {dr['template']}: CommentsCorpus.tla says "
             f"{dr['spec']}, the parser's locations say {dr['ast']}")
     tf, fi = run_files(d, fplan)
+    log(f"[C09] repository files run: {fi['records']} records ({time.time() - t0:.0f}s)")
     if fi["files"] == 0:
         tool_failure("no .sam file of /repo/tests or /repo/std could be used")
     if ti["id_loc_not_a_token"] or fi["id_loc_not_a_token"]:
@@ -224,8 +227,8 @@ def run(tier):
                                 "comments_of_F(x)": [c["ws"] for c in r["out"]][:6], "idempotent": r["idem"], "syntax_errors_of_F(x)": r["errs"]})
         for rec, fs in judge(trace, tag, stats):
             for f in fs:
-                for c in f["cls"]:
-                    failing_classes[(f["kind"], c)] += 1
+                if len(f["cls"]) == 1:      # attributed to one slot class
+                    failing_classes[(f["kind"], f["cls"][0])] += 1
                 hit = [key for key in alive if matches(f, key)]
                 if hit:
                     excused[hit[0]] += 1
@@ -234,6 +237,7 @@ def run(tier):
                 sig = (f["kind"], tuple(f["cls"]))
                 if sig not in violations:
                     violations[sig] = (rec, f)
+    log(f"[C09] {stats['judged']} records judged by TLC ({time.time() - t0:.0f}s)")
     for sig, (rec, f) in list(violations.items())[:MAX_REPORTED]:
         case = {"mode": rec["mode"], "src": rec["src"], "case": rec.get("case"), "width": rec["w"]}
         if rec["mode"].startswith("template"):
